@@ -18,6 +18,7 @@ every-subset-once for the carry-rippler follow by induction / the cited lemma (a
 from .. import sym, bitfn
 from ..bitfn import BitEval, vec_var, vec_const, combine, const_bit, CannotBit
 from .common import loc
+from .c06 import natom
 
 P = "cozy_chess_types::bitboard::"
 BBT = P + "BitBoard"
@@ -54,6 +55,23 @@ A = vec_var("a")
 Bv = vec_var("b")
 SELF0 = ("field", ("param", "self"), "0")
 SELFP0 = ("field", ("obj", "self"), "0")
+
+
+def assume(term, atom, value):
+    """restrict a bit term by atom := value"""
+    atoms, tt = term
+    if atom not in atoms:
+        return term
+    i = atoms.index(atom)
+    n = len(atoms)
+    out = 0
+    k = 0
+    for r in range(1 << n):
+        if ((r >> i) & 1) == value:
+            if (tt >> r) & 1:
+                out |= 1 << k
+            k += 1
+    return bitfn._reduce(atoms[:i] + atoms[i + 1:], out)
 
 
 def eqvec(x, y):
@@ -181,13 +199,22 @@ def run(ctx):
     n_none = n_some = 0
     for p in ps:
         r = p.ret
-        isnext = r[0] == "call" and r[1] == SQ + "::try_index" and sym.contains(r, lambda x: x == STATE)
-        ctx.check(isnext, "iter.next:returns-lowest", "iterator next() does not return next_square() of its state: %s" % sym.show(r)[:120], loc(b))
         st = p.store.get(("P", "self"))
+        # the decision about next_square(state): Some or None
         d = None
+        nsq = None
         for c in p.conds:
-            if c[0][0] == "discr" and c[0][1] == r:
-                d = c[1]
+            a, pol = natom(c[0], c[1])
+            if a[0] == "issome" and a[1][0] == "call" and a[1][1] == SQ + "::try_index" and sym.contains(a[1], lambda x: x == STATE):
+                nsq = a[1]
+                d = 1 if pol else 0
+        if nsq is None:
+            ctx.fail("iter.next:undecided", "iterator next() does not look at next_square() of its state", loc(b))
+            continue
+        isnext = r == nsq or (d == 0 and r[0] == "agg" and r[2] == "None") or \
+            (d == 1 and r[0] == "agg" and r[2] == "Some" and dict(r[4])["0"] == ("field", ("downcast", nsq, "Some"), "0"))
+        ctx.check(isnext, "iter.next:returns-lowest", "iterator next() does not return next_square() of its state: %s" % sym.show(r)[:120], loc(b))
+        r = nsq
         if d == 1:
             n_some += 1
             newraw = sym.Ops(f).field(sym.Ops(f).field(st, "0"), "0")
@@ -202,9 +229,14 @@ def run(ctx):
                 except CannotBit as ex:
                     bad.append((s, str(ex)))
                     break
-                want = [combine("not", A[i]) if i == s else A[i] for i in range(64)]
-                if got != want:
-                    bad.append(s)
+                # the yielded square is the lowest *set* bit: under A[s] = 1 the new state must have bit s clear
+                # and every other bit unchanged (covers both `^= bit` and `-= bit`)
+                for i in range(64):
+                    gi = assume(got[i], ("a", s), 1)
+                    wi = const_bit(0) if i == s else assume(A[i], ("a", s), 1)
+                    if gi != wi:
+                        bad.append((s, i))
+                        break
             okp = sqidx is not None and sqidx[2][1] == ("field", ("downcast", r, "Some"), "0")
             ctx.check(okp and not bad, "iter.next:removes-yielded", "after yielding a square the state is not the old state with exactly that square's bit flipped: %s" % bad[:3], loc(b),
                       sample={"iter.next": "state ^= bit(yielded)", "cases": 64})
@@ -257,13 +289,23 @@ def run(ctx):
     ctx.rule("subset-iteration")
     b, ps = paths(f, BBT + "::iter_subsets")
     r = ps[0].ret if len(ps) == 1 else None
-    oki = r is not None and r[0] == "agg" and dict(r[4]).get("set") == ("param", "self") and dict(r[4]).get("subset") == ("bbconst", 0) and \
-        dict(r[4]).get("finished") == sym.FALSE
+    f_set = f_sub = f_fin = None
+    if r is not None and r[0] == "agg":
+        for n_, v_ in r[4]:
+            if v_ == ("param", "self"):
+                f_set = n_
+            elif v_ == ("bbconst", 0):
+                f_sub = n_
+            elif v_ == sym.FALSE:
+                f_fin = n_
+    oki = r is not None and None not in (f_set, f_sub, f_fin) and len(r[4]) == 3
     ctx.check(oki, "subsets:start", "iter_subsets does not start at (set, empty subset, not finished): %s" % (sym.show(r)[:120] if r else None), loc(b))
+    if not oki:
+        return
     b, ps = paths(f, "<" + P + "BitBoardSubsetIter as core::iter::traits::iterator::Iterator>::next")
-    fin = ("field", ("obj", "self"), "finished")
-    sub0 = ("field", ("field", ("obj", "self"), "subset"), "0")
-    set0 = ("field", ("field", ("obj", "self"), "set"), "0")
+    fin = ("field", ("obj", "self"), f_fin)
+    sub0 = ("field", ("field", ("obj", "self"), f_sub), "0")
+    set0 = ("field", ("field", ("obj", "self"), f_set), "0")
     seen = set()
     for p in ps:
         fv = [c[1] for c in p.conds if c[0] == fin]
@@ -275,8 +317,8 @@ def run(ctx):
             seen.add("step")
             st = p.store.get(("P", "self"))
             o = sym.Ops(f)
-            newsub = o.field(o.field(st, "subset"), "0")
-            newfin = o.field(st, "finished")
+            newsub = o.field(o.field(st, f_sub), "0")
+            newfin = o.field(st, f_fin)
             # accepted idioms: (subset - set) & set   |   ((subset | !set) + 1) & set
             def is_wsub(e, a, b_):
                 return (e[0] == "call" and e[1].endswith("wrapping_sub") and e[2] == (a, b_)) or (e[0] == "bin" and e[1] == "Sub" and e[2] == a and e[3] == b_)
@@ -286,7 +328,7 @@ def run(ctx):
             okf2 = newfin in (("bin", "Eq", newsub, ("int", 0, "u64")), ("bin", "Eq", ("int", 0, "u64"), newsub))
             ctx.check(okf2, "subsets:finished-iff-wrapped", "finished is not set exactly when the next subset is empty (wrapped around): %s" % sym.show(newfin)[:160], loc(b))
             r = p.ret
-            ctx.check(r[0] == "agg" and r[2] == "Some" and dict(r[4])["0"] == ("field", ("obj", "self"), "subset"), "subsets:yields-current",
+            ctx.check(r[0] == "agg" and r[2] == "Some" and dict(r[4])["0"] == ("field", ("obj", "self"), f_sub), "subsets:yields-current",
                       "the step does not yield the subset held before stepping", loc(b))
         else:
             ctx.fail("subsets:finished-undecided", "subset next() does not first test the finished flag", loc(b))
